@@ -129,6 +129,9 @@ def override(dev, req, frames, d):
         return [bad, bad]
     if place == "bad_bad_good":
         return [bad, bad] + list(frames)
+    if place == "many_then_good":
+        # a burst of rejected frames ahead of the valid one (a unit that lost sync for a moment)
+        return [bad] * int(spec.get("n", 12)) + list(frames)
     return [bad] + list(frames) + [bad]
 
 
